@@ -433,8 +433,10 @@ func Lock(try func() bool, site string) {
 	}
 	t := s.task(site)
 	if t.inline {
-		for !try() {
-			runtime.Gosched()
+		// the scheduler goroutine runs code under test on its own (sequential reference
+		// executions): nobody else can release a lock, so a busy lock is a self-deadlock
+		if !try() {
+			panic(InlineDeadlock{Site: site})
 		}
 		return
 	}
@@ -467,6 +469,12 @@ func Lock(try func() bool, site string) {
 		s.unlock()
 	}
 }
+
+// InlineDeadlock is the panic value raised when sequentially executed code under test tries
+// to take a lock that is already held (it would block forever).
+type InlineDeadlock struct{ Site string }
+
+func (d InlineDeadlock) Error() string { return "lock already held in a sequential execution at " + d.Site }
 
 // Unlock replaces m.Unlock().
 //
